@@ -1,2 +1,3 @@
 pub mod c18;
 pub mod c03;
+pub mod c09;
